@@ -64,7 +64,8 @@ let utf8_encode_cp (b : Buffer.t) (c : int) : unit =
 
 (* Rust's `{:?}` escaping for the characters the harness alphabets use: printable characters stay
    literal; \t \r \n \\ \0 and the quote of the surrounding literal are escaped; other C0/C1 controls
-   and DEL are written \u{..}. (Grapheme-extending and unassigned code points are outside the harness alphabets.) *)
+   and DEL, private-use code points, noncharacters and everything from plane 4 up (unassigned, tags, private use) are written \u{..}.
+   (Other grapheme-extending and unassigned code points are outside the harness alphabets.) *)
 let rust_escape_cp (b : Buffer.t) (quote : char) (c : int) : unit =
   if c = 0 then Buffer.add_string b "\\0"
   else if c = 9 then Buffer.add_string b "\\t"
@@ -72,7 +73,9 @@ let rust_escape_cp (b : Buffer.t) (quote : char) (c : int) : unit =
   else if c = 13 then Buffer.add_string b "\\r"
   else if c = 92 then Buffer.add_string b "\\\\"
   else if c = Char.code quote then (Buffer.add_char b '\\'; Buffer.add_char b quote)
-  else if c < 32 || c = 127 || (c >= 0x80 && c < 0xA0) then Buffer.add_string b (Printf.sprintf "\\u{%x}" c)
+  else if c < 32 || c = 127 || (c >= 0x80 && c < 0xA0)
+          || (c >= 0xE000 && c <= 0xF8FF) || c = 0xFFFE || c = 0xFFFF || c >= 0x40000   (* private use, noncharacters, planes 4..16 *)
+  then Buffer.add_string b (Printf.sprintf "\\u{%x}" c)
   else utf8_encode_cp b c
 
 let rust_debug_str (s : string) : string =
